@@ -95,7 +95,13 @@ def outcome(effects, lam, L):
                 return r
         elif e == "return":
             v = x["val"]
-            return ("return", v[1] if v is not None and v[0] in ("obj", "call") else sym.show(v))
+            if v is not None and v[0] in ("obj", "call"):
+                # the constructor may take arguments computed from the request (one builder with a flag): evaluate them here
+                av = tuple(eval_cond(a, lam, L) for a in v[2])
+                if any(a is None for a in av):
+                    return ("unknown", "argument of %s at line %s is not computed from the request and literals" % (v[1], x["l"]))
+                return ("return", (v[1], tuple(int(a) for a in av)))
+            return ("return", (sym.show(v), ()))
         elif e == "exit":
             return ("exit", x["how"])
     return ("fall",)
@@ -171,9 +177,12 @@ def cached_object(v, eff, glob, alloc_name):
     return True, "%s is a cache keyed on every constructor argument" % sym.show(glob)
 
 
-def param_set(v, fn):
-    """constants of one static parameter constructor, by following its constructor calls"""
-    eff, st, ex = run_function(v, fn, hooks=InlineLocalHelpers(fn))
+def param_set(v, fn, argvals=()):
+    """constants of one static parameter constructor (called with the given literal arguments), by following its constructor calls"""
+    eff, st, ex = run_function(v, fn, args=[sym.I(a) for a in argvals] if argvals else None, hooks=InlineLocalHelpers(fn))
+    for x in flat(eff):
+        if x["e"] == "call":
+            x["args"] = [sym.fold(a) if isinstance(a, tuple) else a for a in x["args"]]
     calls = {}
     for x in flat(eff):
         if x["e"] == "call":
@@ -226,6 +235,46 @@ def readme_table(prog):
     return rows
 
 
+def selected_parameter_sets(chk, v):
+    """the selector evaluated at a representative of every region of the request axis (between consecutive literals the outcome is
+    constant), and the constants of every parameter set it can return -- a constructor per set, or one builder called with
+    arguments computed from the request.  -> (selector function, points, outcomes, {(constructor name, argument values): constants})"""
+    vn = v.name
+    sel = v.fn(SELECTOR)
+    L = sym.sym(sel.params[0]["n"])
+    eff, st, ex = run_function(v, sel, hooks=Hooks())
+    lits = set()
+    for x in flat(eff):
+        if x["e"] == "if":
+            for a in _ints(x["cond"]):
+                lits.add(a)
+    points = sorted({INT32_MIN, INT32_MAX, 0, 1} | {c + d for c in lits for d in (-1, 0, 1)})
+    points = [p for p in points if INT32_MIN <= p <= INT32_MAX]
+    chk.set_count("R1.region_representatives", len(points))
+    # regions: between consecutive literals the outcome is constant; verify by evaluating both ends
+    outcomes = {p: outcome(eff, p, L) for p in points}
+    unknown = [(p, o) for p, o in outcomes.items() if o[0] == "unknown"]
+    if unknown:
+        chk.broken("selector condition not decidable: %s" % (unknown[0][1][1],))
+    # identify the sets returned
+    fns = {}
+    for p, o in outcomes.items():
+        if o[0] == "return":
+            fns.setdefault(o[1], []).append(p)
+    sets = {}
+    for key_ in fns:
+        f = v.fn(key_[0], required=False)
+        if f is None:
+            chk.broken("selector returns %s, not a parameter constructor" % key_[0])
+        ps, err = param_set(v, f, key_[1])
+        if ps is None:
+            chk.broken(err)
+        if any(ps.get(q_) is None for q_ in ("n", "N", "k", "l", "Bgbit", "ks_t", "ks_basebit")):
+            chk.broken("%s%s: a dimension is not a literal after folding" % (key_[0], key_[1] or ""))
+        sets[key_] = ps
+    return sel, points, outcomes, sets
+
+
 def run(chk):
     prog = Program()
     chk.explanation = (
@@ -243,36 +292,8 @@ def run(chk):
     for v in prog.variants():
         vn = v.name
         chk.analysed["variants"] = chk.analysed.get("variants", 0) + 1
-        sel = v.fn(SELECTOR)
-        L = sym.sym(sel.params[0]["n"])
-        eff, st, ex = run_function(v, sel, hooks=Hooks())
-        lits = set()
-        for x in flat(eff):
-            if x["e"] == "if":
-                for a in _ints(x["cond"]):
-                    lits.add(a)
-        points = sorted({INT32_MIN, INT32_MAX, 0, 1} | {c + d for c in lits for d in (-1, 0, 1)})
-        points = [p for p in points if INT32_MIN <= p <= INT32_MAX]
+        sel, points, outcomes, sets = selected_parameter_sets(chk, v)
         chk.set_count("R1.region_representatives", len(points))
-        # regions: between consecutive literals the outcome is constant; verify by evaluating both ends
-        outcomes = {p: outcome(eff, p, L) for p in points}
-        unknown = [(p, o) for p, o in outcomes.items() if o[0] == "unknown"]
-        if unknown:
-            chk.broken("selector condition not decidable: %s" % (unknown[0][1][1],))
-        # identify the sets returned
-        fns = {}
-        for p, o in outcomes.items():
-            if o[0] == "return":
-                fns.setdefault(o[1], []).append(p)
-        sets = {}
-        for name in fns:
-            f = v.fn(name, required=False)
-            if f is None:
-                chk.broken("selector returns %s, not a parameter constructor" % name)
-            ps, err = param_set(v, f)
-            if ps is None:
-                chk.broken(err)
-            sets[name] = ps
         chk.set_count("R1.parameter_sets", len(sets))
 
         def expected(p):
@@ -298,8 +319,9 @@ def run(chk):
         chk.require(seq == sorted(seq), "R1", "selection is monotone in the request", where=sel.where,
                     ok="levels along the axis: %s" % seq, bad="levels along the axis: %s" % seq, variant=vn)
         # R2 constants
-        for name, ps in sets.items():
-            f = v.fn(name)
+        for key_, ps in sets.items():
+            f = v.fn(key_[0])
+            name = key_[0] + ("(%s)" % ", ".join(str(a) for a in key_[1]) if key_[1] else "")
             is128 = ps["n"] == doc["Key-Switching key"][0]
             if is128:
                 want = {"n": doc["Key-Switching key"][0], "ks_stdev": doc["Key-Switching key"][1],
